@@ -8,7 +8,7 @@ from symtrace.r1cs import Sys
 from symtrace.concrete import flat, lincomb_of
 from . import catalogue as CAT
 from . import common as C
-from .catjob import Job
+from .catjob import lookup, Job
 from .c01 import is_heavy
 from .c02 import build_system, soundness_goal, adversarial_assignment
 
@@ -52,8 +52,8 @@ def leaf_vals(t):
 
 
 def run_job(env, spec):
-    entry = CAT.by_name(spec["cfg"]["n"], "thorough")[spec["entry"]]
-    job = Job(PID, env, spec, entry)
+    entry = lookup(spec)
+    job = Job(spec.get("pid", PID), env, spec, entry, spec.get("catalogue", "checks.catalogue"))
     job.cfg["want_ref"] = False
     gnames = ["g"] if job.cfg["guard"] == "sym" else ["g%d" % i for i in range(job.cfg["guard"][1])]
     E.ENG.name_prefix = "G_"
@@ -63,7 +63,7 @@ def run_job(env, spec):
     gsome0 = lambda: z3.Or([valsG[g].t == 0 for g in gnames])
     # plain twin (unguarded), separate skolem namespace
     E.ENG.name_prefix = "U_"
-    jobU = Job(PID, env, spec, entry)
+    jobU = Job(spec.get("pid", PID), env, spec, entry, spec.get("catalogue", "checks.catalogue"))
     jobU.cfg.update(guard=None, want_ref=False)
     tracesU = jobU.explore()
     E.ENG.name_prefix = ""
@@ -162,7 +162,7 @@ def run_job(env, spec):
     # ---------------- assertions under a true guard: rejected => unsatisfiable, on the guarded ignore_errors structure
     if "assert" in entry.tags and "decl" not in entry.tags and job.cfg["guard"] == "sym":
         E.ENG.name_prefix = "I_"
-        jobI = Job(PID, env, spec, entry)
+        jobI = Job(spec.get("pid", PID), env, spec, entry, spec.get("catalogue", "checks.catalogue"))
         jobI.cfg.update(want_ref=False, ignore=True)
         tI = [t for t in jobI.explore() if t.path.ok]
         E.ENG.name_prefix = ""
